@@ -97,10 +97,11 @@ theorem parseClientHello_inv (buf : Bytes) (h : Hello) (hp : parseClientHello bu
       marshalBody false h = .ok body ∧
       body = u16 h.legacyVersion ++ h.random ++ (u8 h.sessionId.length ++ h.sessionId) ++
              (u16 h.cipherSuites.length ++ h.cipherSuites) ++ (u8 h.compression.length ++ h.compression) ++
-             (u16 (encExts h.exts).length ++ encExts h.exts) ∧
+             (if h.noExt then [] else u16 (encExts h.exts).length ++ encExts h.exts) ∧
       h.random.length = 32 ∧ h.legacyVersion < 65536 ∧
       parseExtensions h.exts = .ok h.d ∧
-      ((h.d.ech.map (·.typ)) = some 1 → allZero after = true ∧ allZero trail = true) := by
+      ((h.d.ech.map (·.typ)) = some 1 → allZero after = true ∧ allZero trail = true) ∧
+      (h.noExt = true → h.exts = [] ∧ after = []) := by
   unfold parseClientHello at hp
   split at hp; · simp at hp
   rename_i mt s0 h0
@@ -118,16 +119,6 @@ theorem parseClientHello_inv (buf : Bytes) (h : Hello) (hp : parseClientHello bu
   rename_i cs s4 h5
   split at hp; · simp at hp
   rename_i comp s5 h6
-  split at hp; · simp at hp
-  rename_i extb s6 h7
-  split at hp; · simp at hp
-  rename_i exts h8
-  split at hp; · simp at hp
-  rename_i d h9
-  split at hp; · simp at hp
-  rename_i hz
-  simp only [Except.ok.injEq] at hp
-  subst hp
   obtain ⟨e0, _⟩ := readU8_inv h0
   obtain ⟨e1, l1⟩ := readLP24_inv h1
   obtain ⟨e2, l2⟩ := readU16_inv h2
@@ -135,27 +126,62 @@ theorem parseClientHello_inv (buf : Bytes) (h : Hello) (hp : parseClientHello bu
   obtain ⟨e4, l4⟩ := readLP8_inv h4
   obtain ⟨e5, l5⟩ := readLP16_inv h5
   obtain ⟨e6, l6⟩ := readLP8_inv h6
-  obtain ⟨e7, l7⟩ := readLP16_inv h7
-  obtain ⟨e8, r8⟩ := parseExts_inv extb exts h8
   have hmt1 : mt = 1 := by simpa using hmt
   subst hmt1
-  have hr : ∀ e ∈ exts, e.data.length < 65536 := fun e he => (r8 e he).2
-  refine ⟨u16 ver ++ rnd ++ (u8 sid.length ++ sid) ++ (u16 cs.length ++ cs) ++ (u8 comp.length ++ comp) ++ (u16 extb.length ++ extb),
-    s6, zeros, ?_, ?_, ?_, ?_, l3, l2, h9, ?_⟩
-  · have hss : ss = u16 ver ++ rnd ++ (u8 sid.length ++ sid) ++ (u16 cs.length ++ cs) ++ (u8 comp.length ++ comp) ++ (u16 extb.length ++ extb) ++ s6 := by
-      rw [e2, e3, e4, e5, e6, e7]; simp [List.append_assoc]
-    rw [e0, e1, hss]; simp only [List.append_assoc]
-  · have hss : ss = u16 ver ++ rnd ++ (u8 sid.length ++ sid) ++ (u16 cs.length ++ cs) ++ (u8 comp.length ++ comp) ++ (u16 extb.length ++ extb) ++ s6 := by
-      rw [e2, e3, e4, e5, e6, e7]; simp [List.append_assoc]
-    rw [← hss]; exact l1
-  · dsimp only [marshalBody]
-    rw [putExts_false _ exts hr]
-    simp [lp8, lp16, l4, l5, l6, e8, l7]
-  · rw [e8]
-  · intro ht
-    by_cases hbc : allZero s6 = true ∧ allZero zeros = true
-    · exact hbc
-    · exact absurd ⟨ht, hbc⟩ hz
+  split at hp
+  · -- no extensions field
+    rename_i hs5
+    subst hs5
+    split at hp; · simp at hp
+    rename_i d h9
+    simp only [Except.ok.injEq] at hp
+    subst hp
+    have hss : ss = u16 ver ++ rnd ++ (u8 sid.length ++ sid) ++ (u16 cs.length ++ cs) ++ (u8 comp.length ++ comp) := by
+      rw [e2, e3, e4, e5, e6]; simp [List.append_assoc]
+    have hech : d.ech = none := by
+      simp only [parseExtensions] at h9
+      first
+        | (simp only [Except.ok.injEq] at h9; subst h9; rfl)
+        | (cases h9; rfl)
+    refine ⟨u16 ver ++ rnd ++ (u8 sid.length ++ sid) ++ (u16 cs.length ++ cs) ++ (u8 comp.length ++ comp),
+      [], zeros, ?_, ?_, ?_, ?_, l3, l2, h9, ?_, ?_⟩
+    · rw [e0, e1, hss]; simp only [List.append_assoc, List.append_nil]
+    · rw [List.append_nil, ← hss]; exact l1
+    · dsimp only [marshalBody]
+      simp [putExts, lp8, lp16, l4, l5, l6]
+    · simp
+    · intro ht; rw [hech] at ht; simp at ht
+    · intro _; exact ⟨rfl, rfl⟩
+  · split at hp; · simp at hp
+    rename_i extb s6 h7
+    split at hp; · simp at hp
+    rename_i exts h8
+    split at hp; · simp at hp
+    rename_i d h9
+    split at hp; · simp at hp
+    rename_i hz
+    simp only [Except.ok.injEq] at hp
+    subst hp
+    obtain ⟨e7, l7⟩ := readLP16_inv h7
+    obtain ⟨e8, r8⟩ := parseExts_inv extb exts h8
+    have hr : ∀ e ∈ exts, e.data.length < 65536 := fun e he => (r8 e he).2
+    refine ⟨u16 ver ++ rnd ++ (u8 sid.length ++ sid) ++ (u16 cs.length ++ cs) ++ (u8 comp.length ++ comp) ++ (u16 extb.length ++ extb),
+      s6, zeros, ?_, ?_, ?_, ?_, l3, l2, h9, ?_, ?_⟩
+    · have hss : ss = u16 ver ++ rnd ++ (u8 sid.length ++ sid) ++ (u16 cs.length ++ cs) ++ (u8 comp.length ++ comp) ++ (u16 extb.length ++ extb) ++ s6 := by
+        rw [e2, e3, e4, e5, e6, e7]; simp [List.append_assoc]
+      rw [e0, e1, hss]; simp only [List.append_assoc]
+    · have hss : ss = u16 ver ++ rnd ++ (u8 sid.length ++ sid) ++ (u16 cs.length ++ cs) ++ (u8 comp.length ++ comp) ++ (u16 extb.length ++ extb) ++ s6 := by
+        rw [e2, e3, e4, e5, e6, e7]; simp [List.append_assoc]
+      rw [← hss]; exact l1
+    · dsimp only [marshalBody]
+      rw [putExts_false _ exts hr]
+      simp [lp8, lp16, l4, l5, l6, e8, l7]
+    · simp [e8]
+    · intro ht
+      by_cases hbc : allZero s6 = true ∧ allZero zeros = true
+      · exact hbc
+      · exact absurd ⟨ht, hbc⟩ hz
+    · intro hne; simp at hne
 
 /-- a marshalled record is never shorter than its 9 header bytes -/
 theorem marshalRec_length (aad : Bool) (h : Hello) (buf : Bytes) (hm : marshalRec aad h = .ok buf) :
